@@ -58,6 +58,8 @@ def cases(tier, seed):
         out.append(dict(kind='native', cfg=cfg, dtype='int64'))
         out.append(dict(kind='native', cfg=cfg, dtype='float32'))
         out.append(dict(kind='native', cfg=cfg, dtype='int8'))
+        out.append(dict(kind='mixed-array', cfg=cfg, order='scalar-first'))
+        out.append(dict(kind='mixed-array', cfg=cfg, order='array-first'))
         out.append(dict(kind='layouts', cfg=cfg))
     for i in range(60 if tier == 'quick' else 3000):
         out.append(dict(kind='drag', cfg=rng.choice(cfgs[:4] + [dict(p=3, r=1), dict(p=3)]), sseed=rng.randrange(10 ** 9),
@@ -196,11 +198,49 @@ def run_case(desc, V):
             return _run_meta(desc)
         if kind == 'native':
             return _run_native(desc)
+        if kind == 'mixed-array':
+            return _run_mixed_array(desc)
         if kind == 'layouts':
             return _run_layouts(desc, V)
         if kind == 'drag':
             return _run_drag(desc, V)
     raise ValueError(kind)
+
+
+def _run_mixed_array(desc):
+    """the usual way to write a point cloud: one constant coefficient next to array-valued ones (concrete values: plumbing)."""
+    alg = make_alg(desc['cfg'])
+    d = alg.d
+    if d < 2:
+        return [Eq('void', 1, 1)]
+    order = list(alg.canon2bin.values())
+    g1 = [k for k in order if bin(k).count('1') == 1]
+    ks = g1[:3] if len(g1) >= 3 else g1[:2]
+    arr = [np.array([1.0, 2.0, 3.0]) * (i + 1) for i in range(len(ks) - 1)]
+    vals = ([7.0] + arr) if desc['order'] == 'scalar-first' else (arr + [7.0])
+    cloud = alg.multivector(keys=tuple(ks), values=list(vals))
+    fkey = f'mixed-array|{desc["order"]}'
+    try:
+        g = alg.graph(0xff0000, cloud, 'cloud')
+        top = decode(g.subjects, dict(g.key2idx))
+    except Exception as e:  # noqa
+        return [Fail('mixed-array:raises', f'graph of a multivector with one constant and {len(arr)} array-valued coefficients raises {type(e).__name__}: {e}', fkey + '|raises'), Eq('reached', 1, 1)]
+    els = [x for x in leaves(top) if isinstance(x, tuple) and len(x) == 2 and x[0] == 'element']
+    claims = [Eq('reached', 1, 1)]
+    if len(els) != 3:
+        claims.append(Fail('mixed-array:count', f'{len(els)} elements in the payload, expected the 3 elements of the cloud', fkey))
+        return claims
+    for t, (_, co) in enumerate(els):
+        for k, v in zip(ks, vals):
+            want = float(v[t]) if hasattr(v, '__len__') else float(v)
+            got = co[order.index(k)]
+            try:
+                ok = abs(float(got) - want) < 1e-12
+            except Exception:
+                ok = False
+            if not ok:
+                claims.append(Fail(f'mixed-array[{t},{k}]', f'element {t}, blade {k}: payload has {got!r}, expected {want}', fkey))
+    return claims
 
 
 def _run_scene(desc, V):
